@@ -128,7 +128,23 @@ package fptower
 //@ modifies z
 //@ end
 
+//@ func E2.Inverse
+//@ layer ring fp.Element
+//@ option distribute
+//@ ensures[inverse] qmul((-5), vec(z), old(vec(x))) == svec(2, 0, qnorm((-5), old(vec(x))) * inv(qnorm((-5), old(vec(x)))))
+//@ ensures[result] result == z
+//@ modifies z
+//@ end
+
 // ---------------- E6 over E2 ----------------
+
+//@ func E6.Inverse
+//@ layer ring E2
+//@ option distribute
+//@ ensures[inverse] qmul(NR_E2, vec(z), old(vec(x))) == svec(3, 0, qnorm(NR_E2, old(vec(x))) * inv(qnorm(NR_E2, old(vec(x)))))
+//@ ensures[result] result == z
+//@ modifies z
+//@ end
 
 //@ func E6.Mul
 //@ layer ring E2
@@ -230,6 +246,14 @@ package fptower
 //@ func E12.Square
 //@ layer ring E6
 //@ ensures[value] vec(z) == qsq(NR_E6, old(vec(x)))
+//@ ensures[result] result == z
+//@ modifies z
+//@ end
+
+//@ func E12.Inverse
+//@ layer ring E6
+//@ option distribute
+//@ ensures[inverse] qmul(NR_E6, vec(z), old(vec(x))) == svec(2, 0, qnorm(NR_E6, old(vec(x))) * inv(qnorm(NR_E6, old(vec(x)))))
 //@ ensures[result] result == z
 //@ modifies z
 //@ end
